@@ -337,6 +337,9 @@ func mkPT(rec *Recorder, pt PTSpec) z.PostTransform {
 func userTest(rec *Recorder, t *TestSpec, kind string) z.BoolTFunc {
 	return func(val any, ctx z.Ctx) bool {
 		rec.rec(t.ID, kind, val, ctx)
+		if t.User != nil && t.User.Op == "ctx_k1_eq" {
+			return fmt.Sprint(ctx.Get("k1")) == t.User.S // depends on this call's options, not on the value
+		}
 		if val == nil {
 			return false
 		}
@@ -766,7 +769,12 @@ func Build(rec *Recorder, n *Node, validate bool) z.ZogSchema {
 		t := &n.Tests[0]
 		return z.CustomFunc(func(p *string, ctx z.Ctx) bool {
 			rec.rec(t.ID, "custom", p, ctx)
-			ok := EvalPred(t.User, reflect.ValueOf(p).Elem())
+			ok := false
+			if t.User.Op == "ctx_k1_eq" {
+				ok = fmt.Sprint(ctx.Get("k1")) == t.User.S
+			} else {
+				ok = EvalPred(t.User, reflect.ValueOf(p).Elem())
+			}
 			if n.CustomMut {
 				*p = asciiUpper(*p) // the pointer is the destination: what is written through it stays
 			}
